@@ -427,6 +427,11 @@ func (cs *Contracts) LoadContractFile(path, pkgPath string) error {
 				return fmt.Errorf("%s:%d: modifies outside func", path, c.no)
 			}
 			cur.HasMod = true
+			if t := strings.TrimSpace(c.text); strings.HasPrefix(t, "world except ") {
+				// "world except T, U, ghost g": one location with a list of exceptions
+				cur.Modifies = append(cur.Modifies, t)
+				break
+			}
 			for _, p := range splitTop(c.text, ',') {
 				p = strings.TrimSpace(p)
 				if p != "" && p != "nothing" {
